@@ -7,6 +7,9 @@ ROOT = os.path.dirname(os.path.dirname(os.path.abspath(__file__)))
 
 # id -> (technique, level text, level note, design ref)
 CHECKS = {
+    "C01": ("property-based testing: differential execution, analyzer claims vs an RV32IM reference interpreter at every executed program point",
+            "Generated-input search over ABI-safe but internally wild programs x several initial register/memory/environment vectors; every constant / label-address / entry-value+constant claim for registers and stack slots attached to an executed node is compared with the machine state of the current activation, before and after the instruction. Exploration.",
+            "Trusts the reference machine, the statement/node correspondence and the generator's ABI-safety (a trace is cut where a function writes at or above its entry sp).", "5/C01"),
     "C03": ("property-based testing: generated programs executed on an RV32IM reference interpreter; executed transfers vs CFG edges, structural edge invariants",
             "Generated-input search over arbitrary programs in the stated domain x several initial states: inverse successor/predecessor sets, every executed transfer is an edge, every edge is legitimate, exits have no successors, executed code is never reported unreachable. Exploration.",
             "Trusts the reference machine and the statement/node correspondence (by order, cross-checked by offsets).", "5/C03"),
